@@ -807,6 +807,11 @@ func c17Random(r *Rng) C17Case {
 			if r.Chance(60) {
 				resps["200"].(map[string]any)["schema"] = c17Schema(r, 1, defNames)
 			}
+			if r.Chance(15) {
+				// one inline nullable response schema offered under several media types
+				op["produces"] = Pick(r, [][]any{{"application/json", "application/xml"}, {"application/xml", "application/json", "text/plain"}})
+				resps["200"].(map[string]any)["schema"] = map[string]any{"type": "object", "x-nullable": true, "properties": map[string]any{"note": map[string]any{"type": "string", "x-nullable": true}}}
+			}
 			if r.Chance(30) {
 				h := c17Prim(r)
 				delete(h, "items")
